@@ -51,6 +51,7 @@ import (
 	"math"
 	"math/rand"
 	"os"
+	"runtime/debug"
 	"strconv"
 	"strings"
 	"sync"
@@ -491,6 +492,85 @@ func c04dBytes(r *rand.Rand, n int, pat string) [][]byte {
 	return out
 }
 
+// Hand-over of the amd64 DELTA_BYTE_ARRAY decoders (decodeByteArray / decodeFixedLenByteArray of byte_array_amd64.go):
+// with more than 64 suffix bytes the AVX2 kernel decodes the first k values, the scalar loop the values from k on, which
+// are those whose suffixes add up to at least 64 bytes counted from the end; the loop's "previous value" is rebuilt from
+// the kernel's output. k ranges over 1, 2, 3, ... only for FEW values of 16..65 bytes; the other generators draw counts
+// from boundary lengths of the integer blocks and hit k = 1 by accident. Here: 2..14 values of about `size` bytes, each
+// sharing a prefix of a chosen length (none, 1, around the 8-byte words, half, all but one byte, the whole value) with
+// its predecessor, so that every k and every prefix length of value k (the first one the loop copies from the handed-over
+// value) occur. fixed: all values have exactly `size` bytes (FIXED_LEN_BYTE_ARRAY).
+func c04dHandover(r *rand.Rand, round, size int, fixed bool) [][]byte {
+	n := 2 + round%13 // rounds 0..12 enumerate the counts 2..14, for every size
+	if round >= 13 && round%2 == 1 && size > 0 {
+		n = max(2, 64/size+r.Intn(4)) // just enough suffix bytes to take the AVX2 path at all
+	}
+	out := make([][]byte, n)
+	for i := range out {
+		l := size
+		if !fixed {
+			l = max(0, size+r.Intn(7)-3)
+		}
+		v := make([]byte, l)
+		r.Read(v)
+		if i > 0 {
+			prev := out[i-1]
+			p := []int{0, 0, 1, 7, 8, 9, 16, size / 2, size - 1, size}[r.Intn(10)]
+			p = max(0, min(p, len(prev), l))
+			copy(v, prev[:p])
+			if p < l && p < len(prev) && v[p] == prev[p] {
+				v[p] ^= 0x80 // the common prefix is exactly p bytes long
+			}
+		}
+		out[i] = v
+	}
+	return out
+}
+
+// where the amd64 decoders split the values between the AVX2 kernel and the scalar loop (prefix = longest common prefix
+// with the previous value, which is what the library's encoder writes), and whether the first value of the loop copies a
+// prefix from the handed-over value
+func c04dHandoverClass(vs [][]byte) string {
+	const padding = 64
+	suffix := make([]int, len(vs))
+	prefix := make([]int, len(vs))
+	total := 0
+	for i, v := range vs {
+		if i > 0 {
+			for prefix[i] < len(v) && prefix[i] < len(vs[i-1]) && v[prefix[i]] == vs[i-1][prefix[i]] {
+				prefix[i]++
+			}
+		}
+		suffix[i] = len(v) - prefix[i]
+		total += suffix[i]
+	}
+	if total <= padding {
+		return "scalar only (at most 64 suffix bytes)"
+	}
+	k, n := len(vs), 0
+	for k > 0 && n < padding {
+		k--
+		n += suffix[k]
+	}
+	if k == 0 {
+		return "scalar only (the tail takes every value)"
+	}
+	head := "head>8"
+	switch {
+	case k <= 3:
+		head = "head=" + strconv.Itoa(k)
+	case k <= 8:
+		head = "head=4..8"
+	}
+	switch {
+	case prefix[k] == 0:
+		return head + " next shares nothing"
+	case prefix[k] == len(vs[k]):
+		return head + " next repeats the value"
+	}
+	return head + " next shares a prefix"
+}
+
 // valid stream of the given kind, used as the raw material of the malformed generator
 func c04dValidStream(r *rand.Rand, kind string) []byte {
 	switch kind {
@@ -689,7 +769,10 @@ func (w *c04dWorker) flush() {
 				return
 			}
 			for i, a := range ans {
-				pend[i](a)
+				i, a := i, a
+				if p := c04dCatch(func() { pend[i](a) }); p != "" {
+					w.ctx.Fail("L2", "delta-answer-handler-panics", "handling a driver answer panicked", map[string]any{"request": c04dClip(reqs[i]), "answer": c04dClip(a), "panic": p})
+				}
 			}
 		}
 		later := w.later
@@ -731,6 +814,62 @@ func (w *c04dWorker) dirty(r *rand.Rand, need int) ([]byte, string) {
 		c := max(0, need+r.Intn(41)-20)
 		return c04dFF(c, r.Intn(c+1)), "ff-near"
 	}
+}
+
+// Every call into the library runs under recover. C04 says that the decoder RETURNS the encoded values:
+// a panic of the library on a valid input is a failure of the property (L1, keyed by the entry point,
+// carrying the input), not the death of the harness. c04dCatch returns "" or the panic text followed by
+// the innermost frames of the stack.
+func c04dCatch(f func()) (msg string) {
+	defer func() {
+		if p := recover(); p != nil {
+			msg = fmt.Sprint(p)
+			var at []string
+			lines := strings.Split(string(debug.Stack()), "\n")
+			seen := false
+			for i := 0; i+1 < len(lines) && len(at) < 3; i++ {
+				if strings.HasPrefix(lines[i], "panic(") {
+					seen = true
+					continue
+				}
+				if seen && strings.HasPrefix(lines[i+1], "\t") && !strings.HasPrefix(lines[i], "runtime.") && !strings.HasPrefix(lines[i], "\t") {
+					loc := strings.TrimSpace(lines[i+1])
+					if j := strings.LastIndexByte(loc, ' '); j > 0 {
+						loc = loc[:j]
+					}
+					if j := strings.LastIndex(loc, "/encoding/"); j >= 0 {
+						loc = loc[j+1:]
+					}
+					at = append(at, loc)
+				}
+			}
+			if len(at) > 0 {
+				msg += " @ " + strings.Join(at, " < ")
+			}
+			if msg == "" {
+				msg = "panic"
+			}
+		}
+	}()
+	f()
+	return ""
+}
+
+// one guarded call of a library entry point on a VALID input (values to encode, bytes the library's own
+// encoder produced): false and an L1 failure `<name>-panics` if it panicked. The worker's reused buffers
+// are dropped, the panic may have left them in any state.
+func (w *c04dWorker) lib(name, entry, canon string, more map[string]any, f func()) bool {
+	p := c04dCatch(f)
+	if p == "" {
+		return true
+	}
+	detail := map[string]any{"case": canon, "entry": entry, "panic": p}
+	for k, v := range more {
+		detail[k] = v
+	}
+	w.ctx.Fail("L1", name+"-panics", entry+" panics on a valid input instead of returning ("+w.ctx.Variant+" build)", detail)
+	w.out, w.dec32, w.dec64, w.decB, w.decOff = nil, nil, nil, nil, nil
+	return false
 }
 
 func c04dLenClass(n int) string {
@@ -803,12 +942,17 @@ func (w *c04dWorker) runInt(c c04dCase) {
 	for i, v := range c.ints {
 		src32[i] = int32(v)
 	}
+	name := "delta-" + c.kind
 	if bits == 32 {
-		ref, _ = w.bp.EncodeInt32(nil, src32)
+		if !w.lib(name+"-encode", "BinaryPackedEncoding.EncodeInt32(nil, xs)", canon, nil, func() { ref, _ = w.bp.EncodeInt32(nil, src32) }) {
+			return
+		}
 		ref = bytes.Clone(ref)
 		var dst []byte
 		dst, mode = w.dirty(r, len(ref))
-		got, _ = w.bp.EncodeInt32(dst, src32)
+		if !w.lib(name+"-encode", "BinaryPackedEncoding.EncodeInt32(dirty dst, xs)", canon, map[string]any{"dst": mode}, func() { got, _ = w.bp.EncodeInt32(dst, src32) }) {
+			return
+		}
 		w.out = got
 		// decode into a dirty destination as well
 		switch r.Intn(3) {
@@ -819,17 +963,23 @@ func (w *c04dWorker) runInt(c c04dCase) {
 				w.dec32[:cap(w.dec32)][i] = -1
 			}
 		}
-		w.dec32, decErr = w.bp.DecodeInt32(w.dec32, c04dBeyond(ref, 0xFF))
+		if !w.lib(name+"-decode", "BinaryPackedEncoding.DecodeInt32(EncodeInt32(xs))", canon, map[string]any{"bytes": core.Hex(ref)}, func() { w.dec32, decErr = w.bp.DecodeInt32(w.dec32, c04dBeyond(ref, 0xFF)) }) {
+			return
+		}
 		decOK = decErr == nil && len(w.dec32) == len(src32)
 		for i := 0; decOK && i < len(src32); i++ {
 			decOK = w.dec32[i] == src32[i]
 		}
 	} else {
-		ref, _ = w.bp.EncodeInt64(nil, c.ints)
+		if !w.lib(name+"-encode", "BinaryPackedEncoding.EncodeInt64(nil, xs)", canon, nil, func() { ref, _ = w.bp.EncodeInt64(nil, c.ints) }) {
+			return
+		}
 		ref = bytes.Clone(ref)
 		var dst []byte
 		dst, mode = w.dirty(r, len(ref))
-		got, _ = w.bp.EncodeInt64(dst, c.ints)
+		if !w.lib(name+"-encode", "BinaryPackedEncoding.EncodeInt64(dirty dst, xs)", canon, map[string]any{"dst": mode}, func() { got, _ = w.bp.EncodeInt64(dst, c.ints) }) {
+			return
+		}
 		w.out = got
 		switch r.Intn(3) {
 		case 0:
@@ -839,7 +989,9 @@ func (w *c04dWorker) runInt(c c04dCase) {
 				w.dec64[:cap(w.dec64)][i] = -1
 			}
 		}
-		w.dec64, decErr = w.bp.DecodeInt64(w.dec64, c04dBeyond(ref, 0xFF))
+		if !w.lib(name+"-decode", "BinaryPackedEncoding.DecodeInt64(EncodeInt64(xs))", canon, map[string]any{"bytes": core.Hex(ref)}, func() { w.dec64, decErr = w.bp.DecodeInt64(w.dec64, c04dBeyond(ref, 0xFF)) }) {
+			return
+		}
 		decOK = decErr == nil && len(w.dec64) == len(c.ints)
 		for i := 0; decOK && i < len(c.ints); i++ {
 			decOK = w.dec64[i] == c.ints[i]
@@ -994,7 +1146,11 @@ func (w *c04dWorker) runBytes(c c04dCase) {
 	ctx.Hist(c.kind+"-pattern", c.pat)
 	r := rand.New(rand.NewSource(c.seed))
 	src, offs := c04dFlatten(c.vals, c.base, c.tail)
-	ref, err := enc.EncodeByteArray(nil, src, offs)
+	var ref []byte
+	var err error
+	if !w.lib(kind+"-encode", "EncodeByteArray(nil, src, offsets)", canon, nil, func() { ref, err = enc.EncodeByteArray(nil, src, offs) }) {
+		return
+	}
 	if err != nil {
 		ctx.Fail("L1", kind+"-encode-error", "EncodeByteArray failed on a valid input", map[string]any{"case": canon, "err": err.Error()})
 		return
@@ -1022,14 +1178,21 @@ func (w *c04dWorker) runBytes(c c04dCase) {
 			if c.base == 0 {
 				key, what = kind+"-encode-ignores-offsets-window-tail", "EncodeByteArray with bytes after offsets[n] appends those bytes to the stream (trailing garbage after the last value)"
 			}
-			dec, _, derr := enc.DecodeByteArray(nil, ref, nil)
+			var dec []byte
+			var derr error
+			if p := c04dCatch(func() { dec, _, derr = enc.DecodeByteArray(nil, ref, nil) }); p != "" {
+				derr = fmt.Errorf("panic %s", p)
+			}
 			ctx.Fail("L1", key, what, map[string]any{"case": canon, "src": core.Hex(src), "offsets": fmt.Sprint(offs),
 				"bytes": refHex, "spec": c04dClip(ans), "go_decode": core.Hex(dec), "go_decode_err": fmt.Sprint(derr)})
 		})
 		return
 	}
 	dst, mode := w.dirty(r, len(ref))
-	got, _ := enc.EncodeByteArray(dst, src, offs)
+	var got []byte
+	if !w.lib(kind+"-encode", "EncodeByteArray(dirty dst, src, offsets)", canon, map[string]any{"dst": mode}, func() { got, _ = enc.EncodeByteArray(dst, src, offs) }) {
+		return
+	}
 	w.out = got
 	ctx.Hist("encode-dst", mode)
 	if !bytes.Equal(ref, got) {
@@ -1048,7 +1211,11 @@ func (w *c04dWorker) runBytes(c c04dCase) {
 		}
 	}
 	var derr error
-	w.decB, w.decOff, derr = enc.DecodeByteArray(w.decB, c04dBeyond(ref, 0xFF), w.decOff)
+	if !w.lib(kind+"-decode", "DecodeByteArray(EncodeByteArray(xs))", canon, map[string]any{"bytes": refHex}, func() {
+		w.decB, w.decOff, derr = enc.DecodeByteArray(w.decB, c04dBeyond(ref, 0xFF), w.decOff)
+	}) {
+		return
+	}
 	back, ok := c04dSplit(w.decB, w.decOff)
 	if derr != nil || !ok || !c04dEqVals(back, c.vals) {
 		ctx.Fail("L1", kind+"-go-roundtrip", "Go DecodeByteArray(EncodeByteArray(xs)) != xs",
@@ -1056,6 +1223,7 @@ func (w *c04dWorker) runBytes(c c04dCase) {
 	}
 	if kind == "dba" {
 		w.histWidths("dba-prefix", ref)
+		ctx.Hist("dba-amd64-handover", c04dHandoverClass(c.vals))
 	}
 	w.ask(kind+".specdec "+refHex, func(ans string) {
 		if ans != want {
@@ -1083,8 +1251,23 @@ func (w *c04dWorker) runFLBA(c c04dCase) {
 	ctx.Case(canon, n >= 2)
 	ctx.Hist("flba-size", strconv.Itoa(c.size))
 	ctx.Hist("flba-count", c04dLenClass(n))
+	if c.pat != "" {
+		ctx.Hist("flba-pattern", c.pat)
+	}
+	hvals := make([][]byte, n)
+	for i := range hvals {
+		hvals[i] = c.raw[i*c.size : (i+1)*c.size]
+	}
+	ctx.Hist("flba-amd64-handover", c04dHandoverClass(hvals))
+	if c.size >= 16 && n >= 2 && n <= 8 {
+		ctx.Hist("flba-small-shape", fmt.Sprintf("FLBA(%d) x %d", c.size, n))
+	}
 	r := rand.New(rand.NewSource(c.seed))
-	ref, err := w.ba.EncodeFixedLenByteArray(nil, c.raw, c.size)
+	var ref []byte
+	var err error
+	if !w.lib("dba-flba-encode", "ByteArrayEncoding.EncodeFixedLenByteArray(nil, xs, size)", canon, nil, func() { ref, err = w.ba.EncodeFixedLenByteArray(nil, c.raw, c.size) }) {
+		return
+	}
 	if err != nil {
 		ctx.Fail("L1", "dba-flba-encode-error", "EncodeFixedLenByteArray failed on a valid input", map[string]any{"case": canon, "err": err.Error()})
 		return
@@ -1092,7 +1275,10 @@ func (w *c04dWorker) runFLBA(c c04dCase) {
 	ref = bytes.Clone(ref)
 	refHex := core.Hex(ref)
 	dst, mode := w.dirty(r, len(ref))
-	got, _ := w.ba.EncodeFixedLenByteArray(dst, c.raw, c.size)
+	var got []byte
+	if !w.lib("dba-flba-encode", "ByteArrayEncoding.EncodeFixedLenByteArray(dirty dst, xs, size)", canon, map[string]any{"dst": mode}, func() { got, _ = w.ba.EncodeFixedLenByteArray(dst, c.raw, c.size) }) {
+		return
+	}
 	w.out = got
 	ctx.Hist("encode-dst", mode)
 	if !bytes.Equal(ref, got) {
@@ -1103,7 +1289,11 @@ func (w *c04dWorker) runFLBA(c c04dCase) {
 		w.decB = nil
 	}
 	var derr error
-	w.decB, derr = w.ba.DecodeFixedLenByteArray(w.decB, c04dBeyond(ref, 0xFF), c.size)
+	if !w.lib("dba-flba-decode", "ByteArrayEncoding.DecodeFixedLenByteArray(EncodeFixedLenByteArray(xs))", canon, map[string]any{"bytes": refHex}, func() {
+		w.decB, derr = w.ba.DecodeFixedLenByteArray(w.decB, c04dBeyond(ref, 0xFF), c.size)
+	}) {
+		return
+	}
 	if derr != nil || !bytes.Equal(w.decB, c.raw) {
 		ctx.Fail("L1", "dba-flba-go-roundtrip", "Go DecodeFixedLenByteArray(EncodeFixedLenByteArray(xs)) != xs",
 			map[string]any{"case": canon, "bytes": refHex, "err": fmt.Sprint(derr)})
@@ -1708,6 +1898,15 @@ func (w *c04dWorker) runMalformed(c c04dCase) {
 // ---------------------------------------------------------------- driver of the sub-check
 
 func (w *c04dWorker) run(c c04dCase) {
+	// the library calls are guarded one by one (lib, c04dGoDecode*); whatever still panics while a case is
+	// evaluated is reported with the case instead of killing the process
+	if p := c04dCatch(func() { w.run1(c) }); p != "" {
+		w.ctx.Fail("L1", "delta-case-panics", "evaluating the case panicked outside the guarded library calls", map[string]any{"case": c04dClip(c.canon()), "panic": p})
+		w.out, w.dec32, w.dec64, w.decB, w.decOff, w.flba = nil, nil, nil, nil, nil, 0
+	}
+}
+
+func (w *c04dWorker) run1(c c04dCase) {
 	switch c.kind {
 	case "i32", "i64":
 		w.runInt(c)
@@ -1730,9 +1929,14 @@ func (w *c04dWorker) run(c c04dCase) {
 func c04dCorners(ctx *core.Ctx) {
 	// no offsets at all (not even the leading 0): DELTA_LENGTH_BYTE_ARRAY writes zero bytes, which its own decoder rejects
 	var lb delta.LengthByteArrayEncoding
-	out, err := lb.EncodeByteArray(nil, nil, nil)
-	_, _, derr := lb.DecodeByteArray(nil, out, nil)
-	if len(out) == 0 && derr != nil {
+	var out []byte
+	var err, derr error
+	if p := c04dCatch(func() {
+		out, err = lb.EncodeByteArray(nil, nil, nil)
+		_, _, derr = lb.DecodeByteArray(nil, out, nil)
+	}); p != "" {
+		ctx.Observe("dlba-no-offsets-panics", "LengthByteArrayEncoding.EncodeByteArray / DecodeByteArray with an empty offsets slice (not even the leading 0) panics", map[string]any{"panic": p})
+	} else if len(out) == 0 && derr != nil {
 		ctx.Observe("dlba-no-offsets-encodes-to-nothing", "LengthByteArrayEncoding.EncodeByteArray with an empty offsets slice (not even the leading 0) returns zero bytes, which DecodeByteArray rejects",
 			map[string]any{"encode_err": fmt.Sprint(err), "decode_err": fmt.Sprint(derr)})
 	}
@@ -1748,7 +1952,7 @@ func c04dCorners(ctx *core.Ctx) {
 }
 
 func RunC04Delta(ctx *core.Ctx) {
-	ctx.SetRule("delta: value sequences (int32/int64: boundary lengths 0,1,2,31..34,63..66,127..131,255..259,1000s x 12 value patterns incl. overflowing deltas; byte arrays: 9 patterns incl. empty/long/0xFF/word-boundary shared prefixes; FLBA sizes 1..65 incl. 15,16,17,20,32,33,64) encoded by the real encoder into nil and dirty/reused dst, decoded by Go and by the Lean spec decoder, compared byte-exact with the Lean mirror; plus spec-conformant streams of a reference encoder written from Encodings.md (18 block/miniblock geometries up to the 65536 limit, non-minimal widths, any frame of reference) decoded by Go and by the spec decoder, unneeded miniblocks with stale width bytes, bytes following the stream (decodeInt32/64 must leave exactly those unread), FIXED_LEN_BYTE_ARRAY through foreign DELTA_BYTE_ARRAY streams, every stream also rendered by the Lean family of conformant streams from the same choices; plus malformed streams (random, free-form, truncated, mutated, extended; observations only). Distinct by canonical input text; non-trivial = at least 2 values (ints), at least 2 values with a non-empty one (byte arrays), more than 4 bytes (malformed)")
+	ctx.SetRule("delta: value sequences (int32/int64: boundary lengths 0,1,2,31..34,63..66,127..131,255..259,1000s x 12 value patterns incl. overflowing deltas; byte arrays: 9 patterns incl. empty/long/0xFF/word-boundary shared prefixes; FLBA sizes 1..65 incl. 15,16,17,20,32,33,64; 2..14 values of 1..65 bytes with chosen shared-prefix lengths around the AVX2-head/scalar-tail hand-over of the amd64 DELTA_BYTE_ARRAY decoders, head = 1,2,3,.. values) encoded by the real encoder into nil and dirty/reused dst, decoded by Go and by the Lean spec decoder, compared byte-exact with the Lean mirror; plus spec-conformant streams of a reference encoder written from Encodings.md (18 block/miniblock geometries up to the 65536 limit, non-minimal widths, any frame of reference) decoded by Go and by the spec decoder, unneeded miniblocks with stale width bytes, bytes following the stream (decodeInt32/64 must leave exactly those unread), FIXED_LEN_BYTE_ARRAY through foreign DELTA_BYTE_ARRAY streams, every stream also rendered by the Lean family of conformant streams from the same choices; every call of the library under recover (a panic on a valid input = L1 failure <entry>-panics with the input); plus malformed streams (random, free-form, truncated, mutated, extended; observations only). Distinct by canonical input text; non-trivial = at least 2 values (ints), at least 2 values with a non-empty one (byte arrays), more than 4 bytes (malformed)")
 	var cases []c04dCase
 	// corpus / replay first
 	files := ctx.CorpusFiles()
@@ -1925,6 +2129,23 @@ func RunC04Delta(ctx *core.Ctx) {
 			for _, kind := range []string{"mal32", "mal64", "maldlba", "maldba"} {
 				raw, pat := c04dMalformed(r, kind)
 				cases = append(cases, c04dCase{kind: kind, raw: raw, pat: pat, seed: r.Int63()})
+			}
+		}
+		// few values around the AVX2 head / scalar tail hand-over of the amd64 DELTA_BYTE_ARRAY decoders
+		nH := ctx.Scale(39, 130) * mul
+		for i := 0; i < nH; i++ {
+			for _, size := range c04dFLBASizes {
+				var raw []byte
+				for _, v := range c04dHandover(r, i, size, true) {
+					raw = append(raw, v...)
+				}
+				cases = append(cases, c04dCase{kind: "flba", size: size, raw: raw, pat: "handover", seed: r.Int63()})
+				cases = append(cases, c04dCase{kind: "dba", vals: c04dHandover(r, i, size, false), pat: "handover", seed: r.Int63()})
+				if i%4 == 0 { // the same values through a foreign stream (prefixes shorter than the longest common one are legal)
+					fvs := c04dHandover(r, i, size, true)
+					fraw, parts := c04dRefDBA(r, fvs)
+					cases = append(cases, c04dCase{kind: "confflba", size: size, vals: fvs, raw: fraw, conf: parts, pat: "handover", seed: r.Int63()})
+				}
 			}
 		}
 		c04dCorners(ctx)
